@@ -126,6 +126,13 @@ int main() {
         else if (t[0] == "end" && t.size() == 1) { r = ctx->end() ? "tok" : "null"; }
         else if (t[0] == "closing" && t.size() == 1) { ss << ctx->getClosingPair(); r = ss.str(); }
         else if (t[0] == "closingtok" && t.size() == 1) { r = ctx->getClosingPairToken() ? "tok" : "null"; }
+        else if (t[0] == "printtok" && t.size() == 2) {
+          tokenRange before = ctx->tp;
+          token_t *tok = ctx->getPrintToken(I(1) != 0);
+          if (before.start != ctx->tp.start || before.end != ctx->tp.end) hp::oracle("getPrintToken did not restore the window");
+          if ((tok == NULL) != (ctx->size() == 0)) hp::oracle("getPrintToken NULL-ness disagrees with size()");
+          r = tok ? "tok" : "null";
+        }
         else if (t[0] == "next" && t.size() == 2) {
           if (ctx->hasError) r = "skip";       // C16_getNextOperator_full_fails: may not terminate; parser_t never gets here
           else {
